@@ -115,6 +115,7 @@ def run(ctx):
     subrange(ctx, prog)
     macro_borne(ctx)
     discharge_elsewhere(ctx, prog)
+    destructure_guards(ctx)
     ctx.floor("INVENTORY", 120)
     ctx.floor("RAW", 9)
     ctx.floor("STR", 18)
@@ -554,6 +555,30 @@ def discharge_elsewhere(ctx, prog):
     else:
         c15.linear(ctx, p15)
         witness_inventory(ctx, p15, "w15")
+
+
+def destructure_guards(ctx):
+    """GUARD: the `ptr::read`s in destructure! are sound because the value is an owned, non-Drop aggregate moved into ManuallyDrop.
+    That premise is established at compile time by the macro's guards (not a reference, does not impl Drop, all fields named):
+    the reject/accept program pairs that decide those guards for C17 are decided here too."""
+    from . import c17
+    fam = [p for p in c17.destructure_family(ctx.tier) if p.guard in ("reference", "drop-type", "field-count", "rest-pattern")] \
+        or c17.destructure_family(ctx.tier)
+    progs = []
+    for i, p in enumerate(fam):
+        progs.append(("gr%d" % i, p.reject))
+        progs.append(("ga%d" % i, p.accept))
+    res = facts.compile_many(progs, ctx.th)
+    for i, p in enumerate(fam):
+        rr, ra = res[2 * i], res[2 * i + 1]
+        key = "%s|%s" % (p.guard, p.shape)
+        if rr["ok"]:
+            ctx.violation("GUARD", key, "destructure! accepts a misuse its unsafe reads rely on being rejected: %s (%s) compiles" % (p.guard, p.shape),
+                          detail={"program": p.reject})
+        elif not ra["ok"]:
+            ctx.violation("GUARD", key + "|twin", "the accept twin of %s (%s) does not compile: %s" % (p.guard, p.shape, "; ".join(e["message"][:80] for e in ra["errors"][:2])))
+        ctx.instance("GUARD", key, nontrivial=not rr["ok"], sample={"guard": p.guard, "shape": p.shape})
+    ctx.floor("GUARD", 20)
 
 
 WITNESS_OPS = {"w11": {"array_assume_init"}, "w15": {"read", "read_unaligned", "add"}}
